@@ -7,6 +7,10 @@
   The full property is FALSE for the code as it is; the file proves the negation at concrete
   witnesses (`make_type_collision`, `uniform_broken_by_*`), and the `_partial` theorem under
   "the tuple declarations in play hash injectively" + "no call in the level-mixing region".
+  The null-pointer dereference of a typed-null element argument in the type-mixing branch of
+  put / insert / concat / set@ is repaired (9e8652f): `mix_null_stores_null`, `mix_null_sat_spec`,
+  `table_methods_no_hazard` state what the code does there now; the `_partial` theorem covers those calls
+  (they succeed and keep the table uniform) without any exclusion.
 -/
 import BlocV.Proofs.Lemmas.Containers
 
@@ -47,14 +51,227 @@ theorem uniform_broken_by_level_mixing :
       | .ok (_, x') => !uniform x'
       | _ => false) = true := by decide
 
-/-- Witnesses of the hazards: a typed-null decimal put into an integer table dereferences null; the
-tab constructor refuses the tuple whose declaration hashes to 0. -/
-example : (match memberCall .put (.tab { major := .int, level := 1 } [] [.int 0]) [.int 0, .null Ty.num] false with
-    | .haz .nullDeref => true | _ => false) = true := by decide
+/-- (repaired upstream, 9e8652f; was `hazard nullDeref`) a typed-null decimal put into an integer table is
+stored as a null integer. The general statement is `mix_null_stores_null` below. -/
+example : memberCall .put (.tab { major := .int, level := 1 } [] [.int 0]) [.int 0, .null Ty.num] false =
+    .ok (.tab { major := .int, level := 1 } [] [.null Ty.int], .tab { major := .int, level := 1 } [] [.null Ty.int]) := by rfl
+/-- Witness C09.tuple.hashZero: the tab constructor refuses the tuple whose declaration hashes to 0. -/
 example : (match biTab (m := Res) [.ok (.int 1), .ok (.tup declZ [.raw [], .raw [], .raw [], .num 0, .raw []])] with
     | .err c _ => c == Gen.EXC_RT_COMPOUND_OPAQUE | _ => false) = true := by decide
 /-- (repaired upstream, 7b31e38) a rank above 2^32 − 1 is refused at compile time. -/
 example : acceptItem (makeTupleTy [Ty.int] 0) 4294967297 = some Gen.EXC_PARSE_OUT_OF_INDICE := by decide
+
+/-! ### a typed null of the other numeric type (repair 9e8652f) -/
+
+/-- **mix_null_stores_null**. A scalar typed null of the OTHER numeric type (a NULL decimal for an
+integer container, a NULL integer for a decimal one: `crossNum`) is stored as the null of the container's
+own major (`numNull`: `Value(Value::type_integer)` / `Value(Value::type_numeric)`), by all four methods:
+`put` replaces the element at an in-range position, `insert` adds it at a position 0 ≤ p ≤ n, `concat`
+appends it, `set@` replaces the item — the result is the receiver itself. For a table of one dimension
+and for a tuple item that null has exactly the element type (`numNull_elem_type`); the table's LEVEL is
+still not consulted (C09.mix.level: see the last example). -/
+theorem mix_null_stores_null :
+    (∀ (t nt : Ty) (d : List Ty) (es : List Val) (p : Int64) (c : Bool),
+      crossNum t.major nt.major = true → nt.level = 0 →
+      (inRange p es.length = true →
+        mPut (.tab t d es) (.int p) (.null nt) c =
+          .ok (.tab t d (listPut es (idxOf p) (numNull t.major)), .tab t d (listPut es (idxOf p) (numNull t.major)))) ∧
+      (inRangeIns p es.length = true →
+        mInsert (.tab t d es) (.int p) (.null nt) c =
+          .ok (.tab t d (listIns es (idxOf p) [numNull t.major]), .tab t d (listIns es (idxOf p) [numNull t.major]))) ∧
+      (t.level > 0 →
+        mConcat (.tab t d es) (.null nt) c =
+          .ok (.tab t d (es ++ [numNull t.major]), .tab t d (es ++ [numNull t.major])))) ∧
+    (∀ (decl : List Ty) (items : List Val) (idx : Nat) (dt nt : Ty) (old : Val),
+      decl[idx]? = some dt → items[idx]? = some old → crossNum dt.major nt.major = true → nt.level = 0 →
+      setItemV (.tup decl items) idx (.null nt) =
+        .ok (.tup decl (listPut items idx (numNull dt.major)), .tup decl (listPut items idx (numNull dt.major)))) := by
+  refine ⟨?_, ?_⟩
+  · intro t nt d es p c hc hl
+    refine ⟨?_, ?_, ?_⟩
+    · intro hp
+      have hlt : idxOf p < es.length := by
+        unfold inRange at hp; unfold idxOf; simp at hp; omega
+      have hsome : es[idxOf p]? = some es[idxOf p] := by simp [hlt]
+      unfold mPut
+      simp only [Val.isNull, Bool.or_self, Bool.false_eq_true, ↓reduceIte]
+      have e : (Val.int p).asInt = .ok p := rfl
+      rw [e]
+      simp only [hp, Bool.not_true, Bool.false_eq_true, ↓reduceIte, hsome,
+        classify_null_cross .put t nt _ hc hl]
+    · intro hp
+      unfold mInsert
+      simp only [Val.isNull, Bool.or_self, Bool.false_eq_true, ↓reduceIte]
+      have e : (Val.int p).asInt = .ok p := rfl
+      rw [e]
+      simp only [hp, Bool.not_true, Bool.false_eq_true, ↓reduceIte,
+        classify_null_cross .insert t nt _ hc hl]
+    · intro hlev
+      unfold mConcat
+      have : (Val.tab t d es).type.level > 0 := hlev
+      simp only [this, ↓reduceIte, classify_null_cross .concat t nt _ hc hl]
+  · intro decl items idx dt nt old hdt hold hc hl
+    have hne : dt ≠ nt := by
+      intro e; subst e
+      unfold crossNum at hc
+      simp only [Bool.or_eq_true, Bool.and_eq_true, beq_iff_eq] at hc
+      rcases hc with ⟨h1, h2⟩ | ⟨h1, h2⟩ <;> rw [h1] at h2 <;> simp at h2
+    have hlt : idx < decl.length := by
+      rcases Nat.lt_or_ge idx decl.length with h | h
+      · exact h
+      · rw [List.getElem?_eq_none h] at hdt; simp at hdt
+    unfold setItemV
+    simp only [Val.isNull, Bool.false_eq_true, ↓reduceIte, Val.type, hl, bne_self_eq_false, hlt, hdt, hold]
+    have : (dt == nt) = false := by simpa using hne
+    simp only [this, Bool.false_eq_true, ↓reduceIte, mixItem_null_cross dt nt _ hc]
+
+/-- non-vacuity, all four methods and both directions, as member calls / statements: `Ti1[0].put(0, num())`,
+`Ti1[0].insert(1, num())`, `Ti1[0].concat(num())`, `Td1[1.5].put(0, int())`, `tup(1, "a").set@1(num())`,
+`tup(1.5, 2).set@1(int())` -/
+example : crossNum .int .num = true ∧ crossNum .num .int = true ∧ crossNum .int .int = false ∧
+    crossNum .int .none = false ∧ crossNum .str .int = false := by decide
+def ti1 (es : List Val) : Val := .tab { major := .int, level := 1 } [] es
+def td1 (es : List Val) : Val := .tab { major := .num, level := 1 } [] es
+example : memberCall .put (ti1 [.int 0]) [.int 0, .null Ty.num] false = .ok (ti1 [.null Ty.int], ti1 [.null Ty.int]) := by rfl
+example : memberCall .insert (ti1 [.int 0]) [.int 1, .null Ty.num] false =
+    .ok (ti1 [.int 0, .null Ty.int], ti1 [.int 0, .null Ty.int]) := by rfl
+example : memberCall .concat (ti1 [.int 0]) [.null Ty.num] false =
+    .ok (ti1 [.int 0, .null Ty.int], ti1 [.int 0, .null Ty.int]) := by rfl
+example : memberCall .put (td1 [.num 0x3ff8000000000000]) [.int 0, .null Ty.int] false =
+    .ok (td1 [.null Ty.num], td1 [.null Ty.num]) := by rfl
+example : memberCall .concat (td1 []) [.null Ty.int] false = .ok (td1 [.null Ty.num], td1 [.null Ty.num]) := by rfl
+example : setItemV (.tup [Ty.int, Ty.str] [.int 1, .str [97]]) 0 (.null Ty.num) =
+    .ok (.tup [Ty.int, Ty.str] [.null Ty.int, .str [97]], .tup [Ty.int, Ty.str] [.null Ty.int, .str [97]]) := by rfl
+example : setItemV (.tup [Ty.num, Ty.int] [.num 0x3ff8000000000000, .int 2]) 0 (.null Ty.int) =
+    .ok (.tup [Ty.num, Ty.int] [.null Ty.num, .int 2], .tup [Ty.num, Ty.int] [.null Ty.num, .int 2]) := by rfl
+/-- the stored null has the element type of a one-dimensional table, and the results above are uniform -/
+example : (numNull .int).type = ({ major := .int, level := 1 } : Ty).levelDown ∧
+    uniform (ti1 [.int 0, .null Ty.int]) = true ∧ uniform (td1 [.null Ty.num]) = true := by decide
+/-- an out-of-range position still wins over the element (index error), a null TABLE of the other type is
+still refused / ignored: the repair changed the dereferencing cell only -/
+example : (match memberCall .put (ti1 [.int 0]) [.int 1, .null Ty.num] false with
+    | .err c _ => c == Gen.EXC_RT_INDEX_RANGE_S | _ => false) = true := by decide
+example : (match memberCall .put (ti1 [.int 0]) [.int 0, .null { major := .num, level := 1 }] false with
+    | .err c _ => c == Gen.EXC_RT_TYPE_MISMATCH_S | _ => false) = true := by decide
+/-- C09.mix.level stays: `Ti2[].insert(0, num())` yields `Ti2[N:i0]` — a level-0 null integer in a table of
+tables (inside `KF.levelBug`, not uniform). -/
+example : memberCall .insert (.tab { major := .int, level := 2 } [] []) [.int 0, .null Ty.num] false =
+      .ok (.tab { major := .int, level := 2 } [] [.null Ty.int], .tab { major := .int, level := 2 } [] [.null Ty.int]) ∧
+    KF.levelBug { major := .int, level := 2 } (.null Ty.num) = true ∧
+    uniform (.tab { major := .int, level := 2 } [] [.null Ty.int]) = false := ⟨by rfl, by decide, by decide⟩
+
+/-- **mix_null_sat_spec**. On a one-dimensional integer / decimal table the repaired
+`put` of a scalar typed null of the other numeric type does what the specification allows at EVERY
+integer position: the null of the element type is stored (Spec: `either`, int↔decimal mixing is
+UNDETERMINED BY DOCUMENTATION) or the index error is raised. -/
+theorem mix_null_sat_spec (t nt : Ty) (es : List Val) (p : Int64) (c : Bool)
+    (hl1 : t.level = 1) (hc : crossNum t.major nt.major = true) (hl : nt.level = 0) :
+    Sat (mPut (.tab t [] es) (.int p) (.null nt) c) (Spec.tabPut t [] es (.int p) (.null nt)) := by
+  have hcc := hc
+  unfold crossNum at hcc
+  simp only [Bool.or_eq_true, Bool.and_eq_true, beq_iff_eq] at hcc
+  have hnt : t.major ≠ .tup := by rcases hcc with ⟨h1, _⟩ | ⟨h1, _⟩ <;> rw [h1] <;> simp
+  have hmin : normMinor t = 0 := by
+    unfold normMinor; rcases hcc with ⟨h1, _⟩ | ⟨h1, _⟩ <;> rw [h1] <;> simp
+  have hfit : fit (elemETy t []) (.null nt) = .conv (numNull t.major) := by
+    unfold fit elemETy
+    rw [mkETy_nontup t [] _ hnt, hl1, hmin]
+    have e1 : etyOf (.null nt) = ⟨nt.major, normMinor nt, [], 0⟩ := by
+      show mkETy nt [] nt.level = _
+      rw [mkETy_nil, hl]
+    rcases hcc with ⟨h1, h2⟩ | ⟨h1, h2⟩
+    · rw [e1, h1, h2]; simp [isUntypedNull, h2, hl, numNull, Ty.int]
+    · rw [e1, h1, h2]; simp [isUntypedNull, h2, hl, numNull, Ty.num]
+  unfold Spec.tabPut
+  by_cases hr : 0 ≤ p.toInt ∧ p.toInt < (es.length : Int)
+  · have hp : inRange p es.length = true := by simp [inRange, hr]
+    have hlt : idxOf p < es.length := by unfold idxOf; omega
+    rw [(mix_null_stores_null.1 t nt [] es p c hc hl).1 hp]
+    simp only [Spec.pos, hr, and_self, ↓reduceIte, hfit]
+    left
+    rw [listPut_eq_set es (idxOf p) _ hlt]; rfl
+  · have hp : inRange p es.length = false := by simp [inRange, hr]
+    simp only [Spec.pos, hr, ↓reduceIte, Sat]
+    unfold mPut
+    have e : (Val.int p).asInt = .ok p := rfl
+    simp [Val.isNull, e, hp, idxErr]
+
+/-- the hypotheses are satisfiable (both directions), and what the Spec says at such an input -/
+example : Sat (mPut (ti1 [.int 0]) (.int 0) (.null Ty.num) false)
+      (Spec.tabPut { major := .int, level := 1 } [] [.int 0] (.int 0) (.null Ty.num)) ∧
+    Sat (mPut (td1 []) (.int 0) (.null Ty.int) false)
+      (Spec.tabPut { major := .num, level := 1 } [] [] (.int 0) (.null Ty.int)) :=
+  ⟨mix_null_sat_spec _ Ty.num _ 0 false rfl (by decide) rfl, mix_null_sat_spec _ Ty.int _ 0 false rfl (by decide) rfl⟩
+example : Spec.tabPut { major := .int, level := 1 } [] [.int 0] (.int 0) (.null Ty.num) =
+    .either (ti1 [.null Ty.int]) (ti1 [.null Ty.int]) := by
+  simp [Spec.tabPut, Spec.pos, fit, elemETy, mkETy, etyOf, normMinor, isUntypedNull, Ty.num, Ty.int, Val.type, ti1]
+
+/-- **table_methods_no_hazard**. After the repair no C-level hazard is left in `put`, `insert`, `concat` on a
+table receiver: for every table, every position value and every element argument that is not a malformed
+table (`WfArg`: a `Collection` carries a table type), the outcome is a value or a BLOC error. -/
+theorem table_methods_no_hazard (t : Ty) (d : List Ty) (es : List Val) (a0 a1 : Val) (c : Bool)
+    (h0 : WfArg a0) (h1 : WfArg a1) :
+    (mPut (.tab t d es) a0 a1 c).isHazard = false ∧
+    (mInsert (.tab t d es) a0 a1 c).isHazard = false ∧
+    (t.level > 0 → (mConcat (.tab t d es) a1 c).isHazard = false) := by
+  have pos : a0.isNull = false → (∃ i, a0.asInt = .ok i) ∨ (∃ k x, a0.asInt = .err k x) := by
+    intro hn
+    unfold Val.asInt
+    split
+    · right; exact ⟨_, _, rfl⟩
+    · rename_i hty
+      simp only [bne_iff_ne, ne_eq, Bool.or_eq_true, not_or, Decidable.not_not] at hty
+      obtain ⟨i, rfl⟩ := nonnull_int a0 h0 hn hty.1 hty.2
+      left; exact ⟨i, rfl⟩
+  refine ⟨?_, ?_, ?_⟩
+  · unfold mPut
+    cases hn : a0.isNull with
+    | true => simp [Val.isNull, idxErr, Res.isHazard]
+    | false =>
+      simp only [Val.isNull, Bool.or_false, Bool.false_eq_true, ↓reduceIte]
+      rcases pos hn with ⟨i, hi⟩ | ⟨k, x, hi⟩
+      · rw [hi]
+        simp only
+        split
+        · rfl
+        · split
+          · rfl
+          · rename_i old _
+            have := classify_no_hazard .put t a1 old.type h1
+            revert this
+            cases classify .put t a1 old.type with
+            | ok s => intro _; cases s <;> rfl
+            | _ => simp [Res.isHazard]
+      · rw [hi]; rfl
+  · unfold mInsert
+    cases hn : a0.isNull with
+    | true => simp [Val.isNull, idxErr, Res.isHazard]
+    | false =>
+      simp only [Val.isNull, Bool.or_false, Bool.false_eq_true, ↓reduceIte]
+      rcases pos hn with ⟨i, hi⟩ | ⟨k, x, hi⟩
+      · rw [hi]
+        simp only
+        split
+        · rfl
+        · have := classify_no_hazard .insert t a1 t.levelDown h1
+          revert this
+          cases classify .insert t a1 t.levelDown with
+          | ok s => intro _; cases s <;> rfl
+          | _ => simp [Res.isHazard]
+      · rw [hi]; rfl
+  · intro hlev
+    unfold mConcat
+    have : (Val.tab t d es).type.level > 0 := hlev
+    simp only [this, ↓reduceIte]
+    have := classify_no_hazard .concat t a1 t.levelDown h1
+    revert this
+    cases classify .concat t a1 t.levelDown with
+    | ok s => intro _; cases s <;> rfl
+    | _ => simp [Res.isHazard]
+
+example : WfArg (.null Ty.num) ∧ WfArg (.int 0) := ⟨fun _ _ _ h => by simp at h, fun _ _ _ h => by simp at h⟩
+example : (memberCall .put (ti1 [.int 0]) [.int 0, .null Ty.num] false).isHazard = false ∧
+    (memberCall .insert (td1 []) [.int 0, .null Ty.int] false).isHazard = false := by decide
 
 /-! ### operation sequences -/
 
@@ -128,7 +345,10 @@ theorem step_preserves (P) (hinj : Inj P) (x : Val) (op : Op) (r x' : Val)
 /-- **uniform_preserved (partial)**. For every sequence of member calls and `set@` on a variable that
 starts uniform, with uniform arguments, when the tuple declarations in play (`P`) hash injectively
 and no call lies in the level-mixing region: after every step the variable is uniform, every value
-returned by a successful step is uniform, and a step that is rejected leaves the variable unchanged. -/
+returned by a successful step is uniform, and a step that is rejected leaves the variable unchanged.
+(No exclusion is needed for typed-null element arguments: since 9e8652f a NULL decimal / integer given for
+an integer / decimal table or item is a successful step that stores the null of the element type —
+`mix_null_stores_null`; see `nullOps_safe` for such a run.) -/
 theorem uniform_preserved_partial (P : List Ty → Bool) (hinj : Inj P) :
     ∀ (ops : List Op) (x : Val), UniformIn P x → Safe P x ops →
       UniformIn P (run x ops) ∧
@@ -205,6 +425,29 @@ theorem exOps_safe : ∀ x, Safe onlyIS x exOps := by
 example : UniformIn onlyIS exTab ∧ Safe onlyIS exTab exOps ∧
     (run exTab exOps == .tab (makeTupleTy declIS 1) declIS [tIS 3]) = true :=
   ⟨by decide, exOps_safe exTab, by decide⟩
+
+/-- the hypotheses are also satisfiable by a run whose steps give a typed null of the other numeric type
+(the cells repaired by 9e8652f): `t = tab(1, 0); t.put(0, num()); t.concat(num());` ends as `Ti1[N:i0,N:i0]` -/
+def nullOps : List Op := [.mem .put [.int 0, .null Ty.num], .mem .concat [.null Ty.num]]
+
+theorem nullOps_safe : Safe onlyIS (ti1 [.int 0]) nullOps := by
+  have lb : ∀ es t d es' a, ti1 es = .tab t d es' → a = .null Ty.num → KF.levelBug t a = false := by
+    intro es t d es' a hx ha
+    simp [ti1] at hx
+    subst ha
+    rw [← hx.1]; decide
+  refine ⟨⟨?_, ?_⟩, ⟨?_, ?_⟩, trivial⟩
+  · intro a ha; simp at ha; rcases ha with rfl | rfl <;> decide
+  · intro t d es a hx he; simp [KF.elemArg] at he; exact lb _ t d es a hx he.symm
+  · intro a ha; simp at ha; subst ha; decide
+  · intro t d es a hx he; simp [KF.elemArg] at he
+    have e : applyOp (ti1 [.int 0]) (.mem .put [.int 0, .null Ty.num]) = ti1 [.null Ty.int] := by rfl
+    rw [e] at hx; exact lb _ t d es a hx he.symm
+
+example : UniformIn onlyIS (ti1 [.int 0]) ∧ Safe onlyIS (ti1 [.int 0]) nullOps ∧
+    (run (ti1 [.int 0]) nullOps == ti1 [.null Ty.int, .null Ty.int]) = true ∧
+    UniformIn onlyIS (run (ti1 [.int 0]) nullOps) :=
+  ⟨by decide, nullOps_safe, by decide, (uniform_preserved_partial onlyIS inj_onlyIS nullOps _ (by decide) nullOps_safe).1⟩
 
 /-- The unrestricted statement is false: a uniform start and uniform arguments do not suffice
 (witnesses: hash collision; level mixing). -/
